@@ -174,6 +174,13 @@ def run_check(pid, tier, only=None):
             for r in out["results"]:
                 results[ob.name].append(r)
 
+    if os.environ.get("VERIF_PROFILE"):
+        for ob in obs:
+            for r in results[ob.name]:
+                c = r.get("check") or r
+                print("PROFILE %s%s %s paths=%s wall=%s reach=%s" % (
+                    ob.name, _pp(r["part"]), c.get("state", r.get("verdict")), c.get("paths"), c.get("wall_s"),
+                    {l: (rr["state"], rr["wall_s"]) for l, rr in r.get("reach", {}).items()}))
     # ---------------- interpret
     violations = []       # (ob, part, payload, replay_path)
     known_reported = []
